@@ -252,6 +252,10 @@ def triage(prop, plan, g, known):
     def same(v):
         return v is not None and v['cls'] == v0['cls'] and v['site'] == v0['site']
     v1 = run_ab(plan)
+    if v0['cls'] == 'watchdog:timeout' and v1 is None:
+        # A hang is a deterministic loop and reproduces in a fresh process (60 s limit there); a worker that was only
+        # starved by a loaded machine does not.  Counted, not judged.
+        return ('excluded', 'watchdog:not-a-hang (worker starved, plan completes when replayed alone)')
     if not same(v1):
         # the site of an A/B mismatch or a step-budget report is the config string and stable; sanitizer sites come from the stack
         log('alarm did not reproduce alone:', v0, '->', v1, g['origin'])
